@@ -359,13 +359,31 @@ def rule_r5_r6(rep, repo, classes):
             if any(isinstance(x, ast.Return) and x.value is not None for x in ast.walk(g.node)):
                 rep.note(f"{g.qual} does not construct {k}: selection returns another type (informational)")
             continue
+        from gridlint.props.c07 import local_defs
+        defs = local_defs(g.node)
+
+        def derives(expr, base_names, seen=None):
+            """Does the expression (through local definitions) come from <base>[... index ...]?"""
+            seen = seen if seen is not None else set()
+            for n in ast.walk(expr):
+                if isinstance(n, ast.Subscript) and norm(n.value) in base_names and \
+                        any(isinstance(x, ast.Name) and x.id == idx for x in ast.walk(n.slice)):
+                    return True
+                if isinstance(n, ast.Name) and n.id in defs and n.id not in seen and n.id != idx:
+                    seen.add(n.id)
+                    if any(derives(v, base_names, seen) for v in defs[n.id]):
+                        return True
+            return False
         for c in ctor_calls:
-            args = [norm(a) for a in c.args] + [norm(kw.value) for kw in c.keywords]
-            txt = " ".join(args)
-            okp = "self.points[" in txt or "self._points[" in txt
-            okw = "self.weights[" in txt or "self._weights[" in txt
+            pos = list(c.args)
+            kws = {kw.arg: kw.value for kw in c.keywords}
+            a_pts = kws.get("points", pos[0] if pos else None)
+            a_wts = kws.get("weights", pos[1] if len(pos) > 1 else None)
+            okp = a_pts is not None and derives(a_pts, ("self.points", "self._points"))
+            okw = a_wts is not None and derives(a_wts, ("self.weights", "self._weights"))
+            rest = [norm(a) for a in pos[2:]] + [norm(v) for k_, v in kws.items() if k_ not in ("points", "weights")]
             miss = [p for p, w in stored if p not in ("points", "weights")
-                    and not any(a in (f"self.{w}", f"self.{w.lstrip('_')}") for a in args)]
+                    and not any(a in (f"self.{w}", f"self.{w.lstrip('_')}") for a in rest)]
             if okp and okw and not miss:
                 rep.ok("R6.selection-rewraps", f"{g.qual}@{c.lineno - g.node.lineno}", repo.rel(g.module, c),
                        f"{norm(c.func)}(points[i], weights[i]" + "".join(", " + p for p, _ in stored
